@@ -66,9 +66,9 @@ def run_ext(ctx):
     os.makedirs(ind, exist_ok=True)
     json.dump(sel, open(os.path.join(ind, "cases.json"), "w"))
     env = {"VERIF_IN": ind,
-           "VERIF_HIST_WORLDS": 2 if q else 8, "VERIF_HIST_BLOCKS": 28 if q else 64,
-           "VERIF_FEE_WORLDS": 2 if q else 6, "VERIF_FEE_PHASES": 3 if q else 7, "VERIF_FEE_CASES": 8 if q else 14,
-           "VERIF_PAR": 4 if q else 6}
+           "VERIF_HIST_WORLDS": 2 if q else 16, "VERIF_HIST_BLOCKS": 28 if q else 80,
+           "VERIF_FEE_WORLDS": 2 if q else 8, "VERIF_FEE_PHASES": 3 if q else 8, "VERIF_FEE_CASES": 8 if q else 16,
+           "VERIF_PAR": 4 if q else 8}
     res = ctx.go_driver("c03rpc", "TestDriver", env=env, timeout=3000)
     ctx.absorb(res)
     # 3. TLC re-computes every answer from the reference node's storage dumps
@@ -95,9 +95,8 @@ def run_ext(ctx):
                 if sum(1 for d in ctx.spec_drift if d.get("informational") == w) < 2 and len(ctx.spec_drift) < 20:
                     ctx.spec_drift.append({"part": PART, "informational": w, "event": small(e)})
         for w in judged:
-            clean = False
-            violation(ctx, signature(e, w), {"what": "abstract predicate %s false for a %s answer of the real RPC server (%s)" % (
-                w, e["event"], e.get("srv")), "event": small(e), "ctx": f.get("ctx")})
+            clean = violation(ctx, signature(e, w), {"what": "abstract predicate %s false for a %s answer of the real RPC server (%s)" % (
+                w, e["event"], e.get("srv")), "event": small(e), "ctx": f.get("ctx")}) and clean
     ctx.extra["rpc_informational_failures"] = info
     ctx.extra["rpc_clean"] = clean
     ctx.assumptions.append(
@@ -112,7 +111,7 @@ def run_ext(ctx):
 
 
 def violation(ctx, sig, detail):
-    """ctx.violation, except that a stand-alone run of the extension (property id C03_RPC) honours the known findings listed
+    """ctx.violation (returns True when the signature is a listed known finding), except that a stand-alone run of the extension (property id C03_RPC) honours the known findings listed
     for the properties the extension belongs to (C03; C07 for the fee clause) the way the registered check does."""
     if ctx.pid not in ("C03", "C07"):
         for kf in ctx.known.get("findings", []):
@@ -120,8 +119,13 @@ def violation(ctx, sig, detail):
                 if kf not in ctx.known_hits:
                     ctx.known_hits.append(kf)
                     print("KNOWN-FINDING: property=%s %s" % (kf.get("property"), kf.get("what", json.dumps(kf.get("signature")))), flush=True)
-                return
+                return True
+    for kf in ctx.known.get("findings", []):
+        if kf.get("property") == ctx.pid and vlib.sig_match(kf.get("signature", {}), sig):
+            ctx.violation(sig, detail)   # prints the KNOWN-FINDING line
+            return True
     ctx.violation(sig, detail)
+    return False
 
 
 def small(e):
